@@ -463,6 +463,9 @@ func main() {
 		}
 		for i, h := range hs {
 			if results[i] != nil && results[i].Status == "unknown" && claimed[h.Oblig] {
+				if results[i].BudgetMs >= 60000 {
+					continue // the item already ran with a generous budget of its own (option timeout)
+				}
 				cfg2 := cfg
 				cfg2.timeout = 6 * cfg.timeout
 				r2 := RunHarness(p, h, cfg2)
